@@ -109,7 +109,7 @@ func (s *simSM) applyEntries(entries [][]applyReq, ts int64) applyRes {
 	}()
 	select {
 	case <-done:
-	case <-time.After(20 * time.Second):
+	case <-time.After(60 * time.Second):
 		res.hung = true
 		return res
 	}
